@@ -264,6 +264,72 @@ theorem walk_sound (g : Graph) (o : Walk.Opts) (rk : Nat → Nat) (hrk : ∀ c p
       (∀ m, o.since = some m → m ≤ g.ts c) ∧ (∀ m, o.untl = some m → g.ts c ≤ m) :=
   Walk.walk_sound_all rk hrk h
 
+/-! ### excludes on tied commit times: the catch-up test of `_step` (`n.commit_time >= self._last.commit_time`)
+
+Family: an included tip `Y` directly on a commit `B`; an excluded tip `X` on a chain of `k` commits on the same
+`B`; all commit times equal (or `Y` alone newer).  Roles are numbered `Y=0 B=1 X=2`, chain `3 … k+2` from `B`
+upwards; the commits get their ids (which decide heap ties) from a layout: any order of `Y B X`, the chain
+ascending or descending, placed after, before or in front of the last of them. -/
+
+def tiePos (order : List Nat) (code : Nat) : Nat := (order.takeWhile (· != code)).length
+
+def tieParents (k code : Nat) : List Nat :=
+  if code = 0 then [1] else if code = 1 then [] else if code = 2 then (if k = 0 then [1] else [2 + k])
+  else if code = 3 then [1] else [code - 1]
+
+/-- the history, with the ids of `Y`, `X`, `B` -/
+def tieGraph (k : Nat) (order : List Nat) (yNewer : Bool) : Graph × Nat × Nat × Nat :=
+  (Graph.ofLists (order.map fun code => (tieParents k code).map (tiePos order))
+     (order.map fun code => if yNewer && code == 0 then 6 else 5),
+   tiePos order 0, tiePos order 2, tiePos order 1)
+
+def tiePerms3 : List (List Nat) := [[0, 1, 2], [0, 2, 1], [1, 0, 2], [1, 2, 0], [2, 0, 1], [2, 1, 0]]
+
+/-- all layouts for chain length `k` -/
+def tieOrders (k : Nat) : List (List Nat) :=
+  let up := (List.range k).map (· + 3)
+  tiePerms3.flatMap fun p =>
+    [up, up.reverse].flatMap fun ch =>
+      [p ++ ch, ch ++ p, p.take 2 ++ ch ++ p.drop 2]
+
+/-- every case with the excluded tip up to 10 commits above `B` -/
+def tieCases : List (Graph × Nat × Nat × Nat) :=
+  (List.range 11).flatMap fun k => (tieOrders k).flatMap fun o => [tieGraph k o false, tieGraph k o true]
+
+/-- the walk `include=[Y], exclude=[X]` yields `Y` and nothing else -/
+def tieWalkExact (c : Graph × Nat × Nat × Nat) : Bool :=
+  Walk.walk c.1 { incl := [c.2.1], excl := [c.2.2.1], topo := false, reverse := false, maxEntries := none,
+                  since := none, untl := none } == some [c.2.1]
+
+/-- Bounded exhaustive (792 histories of 3 … 13 commits: every chain length 0 … 10 — the critical length is
+`_MAX_EXTRA_COMMITS + 1 = 6` — times 36 layouts of the ids, times {all stamps equal, `Y` newer}): with the generated comparison (`>=`) the commit `B`, which is
+reachable from the excluded tip, is never yielded on tied stamps; the walk is exactly `[Y]`. -/
+theorem walk_ties_exact_bounded : tieCases.all tieWalkExact = true := by decide +kernel
+
+/-- the 9-commit witness: `Y=0 B=1 X=2` and six commits `3…8` between `X` and `B`, all stamps equal -/
+def tie9 : Graph := (tieGraph 6 [0, 1, 2, 3, 4, 5, 6, 7, 8] false).1
+
+/-- With the strict comparison (`>` instead of `>=`) the countdown of `_MAX_EXTRA_COMMITS` ends the walk before the
+exclusion reaches `B`: the queue yields `[Y, B]` although `B` is reachable from the excluded `X`.  With `>=`
+(parameter `true`, and the real model) it yields `[Y]`. -/
+theorem walk_ties_gt_counterexample :
+    (Walk.Variant.queueOutput false tie9 [0] [2] none).map (·.1) = some [0, 1] ∧
+    (Walk.Variant.queueOutput true tie9 [0] [2] none).map (·.1) = some [0] ∧
+    (Walk.queueOutput tie9 [0] [2] none).map (·.1) = some [0] ∧
+    Anc tie9 1 2 := by
+  refine ⟨by decide +kernel, by decide +kernel, by decide +kernel, ?_⟩
+  have h : ∀ i, i < 6 → Anc tie9 1 (3 + i) := by
+    intro i hi
+    induction i with
+    | zero => exact Anc.step (p := 1) (by decide) (Anc.refl 1)
+    | succ j ih =>
+      have := ih (by omega)
+      refine Anc.step (p := 3 + j) ?_ this
+      have : j < 5 := by omega
+      match j, this with
+      | 0, _ | 1, _ | 2, _ | 3, _ | 4, _ => decide
+  exact Anc.step (p := 8) (by decide) (h 5 (by omega))
+
 /-! ## 6. regression witnesses: what the code did BEFORE the fix series (`LCA.Old`), and does now -/
 
 /-- chain `0 ← 1 ← 2` (1's parent is 0, 2's parent is 1) with stamps (1,0,0) -/
